@@ -118,6 +118,17 @@ def run_boundary(ctx, case):
         ctx.close(E.hf_interpolate_dm(rho, alpha=a), a * rho + (1 - a) * np.eye(D) / D, 1e-13, 'hf_interpolate_dm(alpha) = alpha rho + (1-alpha) I/N')
         ctx.close(E.hf_interpolate_dm(rho, alpha=a), E.hf_interpolate_dm(rho, beta=a * norms[i]), 1e-12, 'alpha and beta forms agree')
         ctx.tick()
+    if case['prng'] % 4 == 1:
+        # a direction given by a state very close to the maximally mixed state (Gell-Mann length ~1e-8): the ray is the same as for its rescaled copy
+        Hh = ref.rand_hermitian(r, D)
+        Hh = Hh - np.trace(Hh).real / D * np.eye(D)
+        tiny = np.eye(D) / D + 3e-8 * Hh / gm_norm((np.eye(D) / D + Hh)[None])[0]
+        big = np.eye(D) / D + 0.05 * Hh / gm_norm((np.eye(D) / D + Hh)[None])[0]
+        got_t = E.hf_interpolate_dm(tiny, beta=0.05)
+        ctx.close(got_t, big, 1e-7, 'hf_interpolate_dm(beta) from a direction of Gell-Mann length 3e-8 lands at distance beta (relative accuracy of the norm)')
+        ctx.close(np.asarray(E.get_density_matrix_boundary(tiny)), np.asarray(E.get_density_matrix_boundary(big)), 1e-6, 'state-space boundary along a direction of Gell-Mann length 3e-8 = boundary along the rescaled direction',
+                  max(1.0, float(np.abs(np.asarray(E.get_density_matrix_boundary(big))).max())))
+        ctx.label('tiny direction')
     if case['prng'] % 4 == 0:
         # a direction written down with integers (a computational basis projector, or a 0/1 diagonal): same rays as its float copy
         rho_i = np.zeros((D, D), dtype=np.int64)
